@@ -189,6 +189,25 @@ func (c *persistComp) Exec(t []string) (extra []string, out string, eff bool) {
 	case "reopen":
 		c.storeComp.Close()
 		return nil, c.open(), true
+	case "torn":
+		// what a kill (or power loss) in the middle of an append leaves: a partial entry at the end of the newest
+		// value-log file.  It belongs to a write that was never acknowledged; the store must open and hold exactly
+		// what it held.
+		c.storeComp.Close()
+		n, _ := strconv.Atoi(t[1])
+		files, _ := filepath.Glob(filepath.Join(c.dir, "*.vlog"))
+		sort.Strings(files)
+		if len(files) > 0 {
+			if f, err := os.OpenFile(files[len(files)-1], os.O_APPEND|os.O_WRONLY, 0600); err == nil {
+				junk := make([]byte, n)
+				for i := range junk {
+					junk[i] = byte(17*i + 1)
+				}
+				f.Write(junk)
+				f.Close()
+			}
+		}
+		return nil, c.open(), true
 	case "op":
 		if c.s == nil {
 			return nil, "bad-op", false
@@ -382,8 +401,10 @@ func (c *persistComp) Gen(r *rand.Rand, idx int, emit func(string)) {
 				emit(fmt.Sprintf("op unp %s %d peers=%s", pick(r, ids), r.Intn(5), JoinC([]string{pick(r, ids), pick(r, ids)})))
 			case k < 16:
 				emit(fmt.Sprintf("op nonce %s %s", pick(r, []string{"a", "X"}), TTok(int64(r.Intn(5)-2)*sec)))
-			case k < 18:
+			case k < 17:
 				emit("reopen")
+			case k < 18:
+				emit(fmt.Sprintf("torn %d", []int{1, 7, 19, 64, 300}[r.Intn(5)]))
 			default:
 				emit("dump")
 			}
